@@ -382,6 +382,11 @@ func (m *M) binop(op token.Token, a, b Value, pos token.Pos) Value {
 			}
 		}
 		if op == token.ADD {
+			if (x.conc || !x.isArr) && (y.conc || !y.isArr) && !(x.conc && y.conc) {
+				// a + b with an atom involved remembers its pieces, exactly as strings.Join / strings.Builder do, so that
+				// strings.Cut / Split take the text apart again into the same atoms (behaviour-preserving change B4)
+				return m.ropeConcat(x, y)
+			}
 			return m.strConcat(x, y)
 		}
 	case Float:
